@@ -257,3 +257,46 @@ def defs_with_conditions(bf, local):
             v = ('other', kind)
         res.append((v, path_conditions(bf, bb), bb))
     return res
+
+
+def resolve_captures(pf, bf, term):
+    """rewrite a term of a closure body so that captured variables (fields of the closure environment, parameter 1)
+    become the terms captured at the closure's construction site in the enclosing function (whose parameters then
+    appear as ('outer', n) to keep them apart from the closure's own parameters)"""
+    path = bf.body.path
+    if '::{closure#' not in path:
+        return term
+    parent = path[:path.rindex('::{closure#')]
+    bl = pf.prog.by_short.get(parent) or []
+    if len(bl) != 1:
+        return term
+    pbf = pf.bf(bl[0])
+    caps = None
+    for b in pbf.body.blocks:
+        for st in b.stmts:
+            if st.k == 'assign' and st.rv.k == 'agg' and st.rv.d.get('ak') == 'closure' and st.rv.d.get('def') == path:
+                caps = [term_of_operand(pbf, o) for o in st.rv.ops]
+    if caps is None:
+        return term
+
+    def outer(t):
+        if isinstance(t, tuple):
+            if t[:1] == ('param',):
+                return ('outer', t[1])
+            return tuple(outer(x) for x in t)
+        return t
+    caps = [outer(x) for x in caps]
+
+    def rw(t):
+        if isinstance(t, tuple):
+            if len(t) == 3 and t[0] == 'field' and t[2].isdigit() and t[1] in (('param', 1), ('deref', ('param', 1))) and int(t[2]) < len(caps):
+                return caps[int(t[2])]
+            return tuple(rw(x) for x in t)
+        return t
+    return rw(term)
+
+
+def is_call_suffix(t, suffix):
+    while isinstance(t, tuple) and t and t[0] in ('ref', 'deref') and len(t) == 2:
+        t = t[1]
+    return isinstance(t, tuple) and len(t) >= 3 and t[0] == 'call' and isinstance(t[1], str) and t[1].endswith(suffix)
